@@ -9,6 +9,15 @@ CHECKS = {
         "reachable substitution, occurs-check refusal, semantic characterisation of the extension, fuel independence and termination. "
         "The solved-form model is tied to State::unify/SMap by differential runs (random deep cases, exhaustive small pairs in thorough) "
         "compared on canonical walk* tuples; an independent Robinson unifier plus brute-force ground valuations search for failing inputs."),
+    "C02": dict(text="Full-strength theorems about the Lean model of State::unify/disunify, DisequalityConstraint::run/subsumes, the "
+        "normalising with_constraint and run_constraints, for ALL atom lists, ALL terms, ALL hash-iteration orders (permutation oracles): "
+        "posting a list of ==/!= atoms from the empty state either yields a state describing EXACTLY the valuations satisfying every atom "
+        "(C02_invariant_ok; valuations are arbitrary substitutions, ground ones a special case) or fails and then no valuation satisfies them "
+        "(C02_invariant_fail); one-step versions on every reachable state; order-freedom for every permutation of the atoms and every pair of "
+        "iteration orders (C02_order_free); no panic. Lifting through conde/fresh and reification/purification to the reported answers' ground "
+        "instances is not yet a theorem (named open obligation) and is carried by the correspondence: random and exhaustive small programs, each "
+        "also under permutations of every conjunction, model vs implementation on canonical answers + constraint truth tables; a brute-force "
+        "ground-solution oracle (independent Robinson unifier) checks both inclusions."),
     "C18": dict(text="Full-strength theorems (21, for all well-formed domains in both representations, all integers, all predicates): "
         "intersect/diff/is_disjoint/contains/min/max/is_singleton/singleton_value/iteration/==/copy_before/drop_before/From<Vec> of the Lean "
         "model of fd.rs equal the set operations, None exactly on empty results, results well-formed again. The model is tied to fd.rs by "
